@@ -205,7 +205,7 @@ def plan(prop):
             obs.append((prag, lambda ctx, k=kinds, d=dims: po.ob_checker_load(ctx, k, d)))
         for n in ((1, 2, 3) if Q else (1, 2, 3, 4, 5)):
             obs.append((prag, lambda ctx, n=n: po.ob_checker_routing(ctx, n)))
-        for nu, wp in (((0, False), (1, False)) if Q else ((0, False), (1, False), (2, False), (0, True), (1, True))):
+        for nu, wp in (((0, False), (1, False)) if Q else ((0, False), (1, False), (0, True), (1, True))):
             obs.append((prag, lambda ctx, nu=nu, wp=wp: po.ob_checker_assignment(ctx, nu, wp)))
         for lay in ((('d',), ('p', 'd'), ('d', 'd'), ('p', 'p', 'd')) if Q else (('d',), ('p',), ('s',), ('r',), ('p', 'd'), ('d', 'd'), ('p', 'p'), ('p', 'p', 'd'), ('p', 'd', 'd'), ('d', 's'), ('p', 'd', 'r', 's'))):
             obs.append((prag, lambda ctx, lay=lay: po.ob_checker_demand(ctx, lay)))
